@@ -113,7 +113,7 @@ def canon(n):
 # ----------------------------------------------------------------------------------------------
 
 def project(v, depth=0):
-    if depth > 60:
+    if depth > 300:
         return {"k": "opaque", "s": "too-deep"}
     if v is None:
         return {"k": "none"}
